@@ -61,9 +61,11 @@ def chain(rec, ops):
     from moclo.record import CircularRecord
     evs = []
     cur = rec
+    reset = False
     for op in ops:
         pre = project.project(cur)
         kind = op[0]
+        n_before = len(evs)
         if kind in ("R", "L"):
             k = op[1]
             out, exc = _exc(lambda: (cur >> k) if kind == "R" else (cur << k))
@@ -76,6 +78,25 @@ def chain(rec, ops):
             evs.append({"ev": "RevComp", "pre": pre, "exc": exc, "post": project.project(out) if exc == "" else pre})
             if exc == "":
                 cur = out
+        elif kind == "RCPEEK":          # reverse complement of the current object, which stays the current object
+            out, exc = _exc(cur.reverse_complement)
+            evs.append({"ev": "RevComp", "pre": pre, "exc": exc, "post": project.project(out) if exc == "" else pre, "peek": True})
+        elif kind == "SETSEQ":           # the sequence of the very same object is replaced (no event: the next events see it)
+            from Bio.Seq import Seq as _Seq
+            new = op[1]
+            try:
+                cur.seq = _Seq(new)
+                cur.features[:] = [f for f in cur.features if int(f.location.end) <= len(new)]
+                if cur.letter_annotations:
+                    cur.letter_annotations = {}
+            except Exception:  # noqa
+                pass
+            reset = True
+        elif kind == "ADDFEAT":          # a feature is appended in place to the very same object
+            from Bio.SeqFeature import FeatureLocation as _FL, SeqFeature as _SF
+            a, b, st = op[1], op[2], op[3]
+            cur.features.append(_SF(_FL(a, b, strand=st), type="misc_feature", id="added%d" % len(cur.features), qualifiers={"label": ["added"]}))
+            reset = True
         elif kind == "COMM":
             k = op[1]
             res, exc = _exc(lambda: ((cur >> k).reverse_complement(), cur.reverse_complement() << k))
@@ -99,6 +120,9 @@ def chain(rec, ops):
                      "CircularRecord": CircularRecord(Seq("ACGT"), id="o"), "slice": cur[0:2]}[what]
             res, exc = _exc(lambda: (cur + other) if side == "right" else (other + cur))
             evs.append({"ev": "Add", "pre": pre, "side": side, "other": what, "exc": exc or "returned:" + type(res).__name__})
+        if reset and len(evs) > n_before:
+            evs[n_before]["reset"] = True      # the object was edited in place: the composed group element starts afresh
+            reset = False
     return evs
 
 
